@@ -73,6 +73,87 @@ CLAIMED = {
         "Sufficient condition for history/thread independence; ambient rounding influence on v3's inexact ** is not "
         "decided. Trusted: " + TB,
     ),
+    "C05": (
+        "proof",
+        "information-flow analysis: field-loop effect check, iteration-source census, absent-vs-ND comparison of abstract results",
+        "DESIGN.md section 4 C05",
+        "Only a keyed store dominated by the duplicate check survives an iteration of the field loop; no sink or construction "
+        "step iterates the parsed map or depends on the raw string; for every optional metric the abstract result of every "
+        "sink is identical for 'absent' and 'Not Defined' with all other metrics arbitrary (chaining gives every subset).",
+        "Assumes CPython dict semantics and the C04 acceptance facts. Trusted: " + TB,
+    ),
+    "C06": (
+        "proof",
+        "dependence analysis on canonical score value graphs under pinned states",
+        "DESIGN.md section 4 C06",
+        "Canonical score terms are equal under each listed substitution (ND modified vs base value, ND vs equivalent value); "
+        "symbol sets exclude supplemental metrics (v4), the overridden base metric (v3 environmental, v4 effective values) and "
+        "temporal/environmental metrics for base/temporal scores.",
+        "v4 goes through the m()/macroVector summaries checked by C02. Trusted: " + TB,
+    ),
+    "C07": (
+        "proof",
+        "abstract interpretation of clean_vector/__eq__/__hash__; composition with C04 acceptance facts",
+        "DESIGN.md section 4 C07",
+        "clean_vector() is prefix + '/'.join of one guarded field per accepted metric in a constant order, guard = given and not "
+        "Not Defined, text = stored pair; mandatory fields always emitted, prefix maps back to the same minor version; == is "
+        "isinstance(own class) and equality of the default clean vectors, hash is hash of the same key.",
+        "Re-parse equality is a composition argument over C04 facts, not an execution. Trusted: " + TB,
+    ),
+    "C08": (
+        "proof",
+        "regular-language inclusion: emitted field automaton vs DFA of the official vectorString pattern",
+        "DESIGN.md section 4 C08",
+        "The emitted language of clean_vector()/rh_vector() (extracted by abstract interpretation) and of the interactive builder "
+        "(from the asked tables) is included in the language of the pinned FIRST vectorString pattern of its version, decided by "
+        "propagating reachable DFA states through the ordered optional/mandatory field sequence.",
+        "Builder structure relies on C16; self-acceptance on C07.reparse. Trusted: " + TB + "; re._parser as regex front end",
+    ),
+    "C09": (
+        "other",
+        "typestate (quantised), interval/multilinear-vertex bounds, threshold decision tables on the 0.1 grid",
+        "DESIGN.md section 4 C09",
+        "Every score value is a selection of values quantised to one decimal, bounded in [0,10] by abstract numeric analysis; "
+        "each severity chain equals the official scale on all 101 grid points (and None for v2); severities(), the v4 severity "
+        "attribute and JSON fields depend on the score of their own slot only.",
+        "Sign of zero not tracked; v4 float arithmetic bounded as exact rationals. Trusted: " + TB,
+    ),
+    "C10": (
+        "proof",
+        "abstract interpretation of as_json to an abstract JSON object + abstract schema validation + DFA inclusion for vectorString",
+        "DESIGN.md section 4 C10",
+        "For all four (sort, minimal) combinations every possible value of every emitted key that the pinned FIRST schema "
+        "constrains is admitted, every required key is always emitted, the v4 score/severity pairing is checked on the grid, "
+        "and the accepted input language is compared with the vectorString pattern. Two v4 disagreements are genuine and "
+        "recorded as known findings.",
+        "multipleOf treated mathematically; unconstrained keys are not checked (schemas lack additionalProperties:false). Trusted: " + TB,
+    ),
+    "C11": (
+        "proof",
+        "abstract interpretation of as_json: identity, per-slot dependence, effective-value tokens, sort/minimal relations",
+        "DESIGN.md section 4 C11",
+        "vectorString is the constructor argument; metric fields name the effective value (independent name table); score and "
+        "severity fields depend on their own slot; sort=True gives the same items in ascending order; minimal=True never drops a "
+        "base field and keeps a group as a whole whenever one of its metrics is defined.",
+        "v4 value names compared leniently (swaps/non-injective names only). Trusted: " + TB,
+    ),
+    "C12": (
+        "proof",
+        "abstract interpretation of rh_vector + structural (dominating-guard / try-handler) analysis of from_rh_vector",
+        "DESIGN.md section 4 C12",
+        "rh_vector() = str(scores()[0]) + '/' + clean_vector(); from_rh_vector splits on the first '/' only, converts both "
+        "ValueErrors to RHMalformed, constructs from the untransformed remainder outside any handler, accepts on exact == with "
+        "scores()[0], raises RHScoreDoesNotMatch otherwise and returns the constructed object.",
+        "Round trip by composition with C07.reparse, C09.quantised and float repr round-trip. Trusted: " + TB,
+    ),
+    "C15": (
+        "proof",
+        "abstract interpretation of the sub-vector methods; composition with C05/C06 for score preservation",
+        "DESIGN.md section 4 C15",
+        "temporal_vector()/environmental_vector() list exactly their group's metrics in specification order with the given value, "
+        "the Not Defined token when omitted or (v3 modified metrics) the base metric's value.",
+        "Score preservation is the composition of C05.nd and C06.a. Trusted: " + TB,
+    ),
 }
 
 PENDING_REASON = "check under construction in this session; not claimed until its static rule set is built and validated"
